@@ -28,7 +28,8 @@ shared cost kernel) that break the property through that dependency; round 9 (19
 met by fewer than one uniformly random small input in 10 000. %d were caught by the check of their own property as it stood when they were first evaluated; %d
 were missed by it at first (%s) - several of those were caught by another property's
 check - and led to the generator / sub-check additions recorded in the last column and in DESIGN.md section 11. All
-are caught by the quick tier now, with three remarks: `C07-stepback-only-if-incomparable` at 3 seeds out of 4;
+are caught by the quick tier now, with four remarks: `C09-r9-departures-deduplicated-by-text` (more than 1000 elements
+and a local-search trap) only by the thorough tier; `C07-stepback-only-if-incomparable` at 3 seeds out of 4;
 `C15-r2-borda-shared-att-dict` by C04, not by C15; `C04-r5-isclose-default-rtol` by C09 (through tiny-scale
 penalties), not by C04, whose statement has an absolute tolerance.
 
